@@ -214,10 +214,33 @@ func (r *Recorder) Act(rule, method string, args ...any) *Node {
 	}
 	sb.WriteString(")")
 	r.Log = append(r.Log, sb.String())
+	// An action owns the values it is handed: user code may sort or filter
+	// Error.Expected in place. The harness does the same (after recording), so
+	// that generated code which hands out shared storage is exposed.
+	for _, a := range args {
+		switch v := a.(type) {
+		case ErrLeaf:
+			scribble(v.Expected)
+		case []ErrLeaf:
+			for _, e := range v {
+				scribble(e.Expected)
+			}
+		}
+	}
 	if rule == r.StartRule {
 		r.Root = n
 	}
 	return n
+}
+
+func scribble(xs []int) {
+	for i := range xs {
+		xs[i] = -1 - xs[i]
+	}
+	if cap(xs) > len(xs) {
+		xs = xs[:cap(xs)]
+		xs[len(xs)-1] = -99
+	}
 }
 
 func (r *Recorder) OnBounds(res any, begin, end Token) {
